@@ -9,7 +9,8 @@ fn epoch_to_timestamp<V: ValT>(v: &V) -> Result<Timestamp, Error<V>> {
         Some(i) => (i as i64).saturating_mul(1000000),
         None => match v.try_as_f64()? {
             f if f.is_nan() => return Err(Error::str(format_args!("cannot convert {v} to time"))),
-            f => (f * 1000000.0) as i64,
+            // round to the nearest microsecond; `as i64` alone truncates 0.842709 * 1e6 to 842708
+            f => (f * 1000000.0).round() as i64,
         },
     };
     Timestamp::from_microsecond(val).map_err(Error::str)
@@ -39,7 +40,8 @@ fn array_to_datetime<V: ValT>(v: &[V]) -> Option<Result<DateTime, jiff::Error>> 
         i8(min)?,
         // the `as i8` cast saturates, returning a number in the range [-128, 128]
         sec.floor() as i8,
-        (sec.fract() * 1e9) as i32,
+        // nearest microsecond (the precision of all time filters), kept below the next second
+        ((sec.fract() * 1e6).round() as i32).min(999_999) * 1000,
     ))
 }
 
